@@ -10,7 +10,8 @@ RULE = ("kernel level: ALL ordered pairs of canonical sets with <=3 intervals on
         "pointwise oracle for instants farther than 1us from every endpoint, endpoint provenance, commutativity, A op A, "
         "A op empty, duration identities within 1us per junction, TsGroup n-ary union. distinct = distinct ordered pairs")
 PROVED = ("intersect_entries / intersect_sound / intersect_positive: every emitted interval of jitintersect is A[i] ∩ B[j] of "
-          "its recorded parents with positive length (any sizes, any coincidences)")
+          "its recorded parents with positive length (any sizes, any coincidences); unionIsets_mem (n-ary union kernel = pointwise "
+          "union, exactly); diff_entries / diff_subset (every set_diff piece inside its recorded parent of A)")
 NOT_PROVED = ("completeness of intersect, pointwise theorems for union and set_diff, duration identities: decided by the "
               "exhaustive order-type correspondence and the pointwise oracle only")
 ASSUMPTIONS = ["operands are canonical (C01)"]
@@ -98,44 +99,75 @@ def api_level(ctx, n, sets):
         inp = dict(level="api", A=A, B=B, scale_ns=sc)
         ctx.case(("a", tuple(A[0]), tuple(A[1]), tuple(B[0]), tuple(B[1]), sc))
         a, b = iset(A[0], A[1], sc), iset(B[0], B[1], sc)
-        an, bn = iset_ns(a), iset_ns(b)
-        ends = an[0] + an[1] + bn[0] + bn[1]
-        res = {"union": a.union(b), "intersect": a.intersect(b), "set_diff": a.set_diff(b)}
-        rn = {k_: iset_ns(v) for k_, v in res.items()}
-        probes = set()
-        for p in ends:
-            probes.update([p - 1001, p + 1001])
-        for p, q in zip(sorted(set(ends)), sorted(set(ends))[1:]):
-            probes.add((p + q) // 2)
-        probes = [x for x in probes if all(abs(x - p) > 1000 for p in ends)]
-        mem = lambda x, S: any(s <= x <= e for s, e in zip(*S))
-        for op, R in rn.items():
-            for x in probes:
-                ia, ib = mem(x, an), mem(x, bn)
-                want = (ia or ib) if op == "union" else (ia and ib) if op == "intersect" else (ia and not ib)
-                if mem(x, R) != want:
-                    ctx.fail("oracle", "%s wrong at x=%d ns" % (op, x), inp, impl=R); break
-            if not is_canonical_ns(*R):
-                ctx.fail("oracle", "%s result not canonical" % op, inp, impl=R)
-            if not all(v in ends or (v + 1000) in ends for v in R[0] + R[1]):
-                ctx.fail("oracle", "%s endpoint is not an operand endpoint (or one reduced by 1us)" % op, inp, impl=R)
-        if iset_ns(b.union(a)) != rn["union"]:
-            ctx.fail("oracle", "union not commutative", inp, impl=[rn["union"], iset_ns(b.union(a))])
-        if iset_ns(b.intersect(a)) != rn["intersect"]:
-            ctx.fail("oracle", "intersect not commutative", inp, impl=[rn["intersect"], iset_ns(b.intersect(a))])
-        if A is B:
-            if rn["union"] != an or rn["intersect"] != an or rn["set_diff"] != ([], []):
-                ctx.fail("oracle", "A op A identities", inp, impl=rn)
-        if not B[0]:
-            if rn["union"] != an or rn["intersect"] != ([], []) or rn["set_diff"] != an:
-                ctx.fail("oracle", "A op empty identities", inp, impl=rn)
-        junctions = len(ends) + 1
-        lhs = dur(*rn["union"]) + dur(*rn["intersect"]); rhs = dur(*an) + dur(*bn)
-        if abs(lhs - rhs) > 1000 * junctions:
-            ctx.fail("oracle", "|A u B| + |A n B| != |A| + |B|", inp, impl=[lhs, rhs])
-        lhs = dur(*rn["set_diff"]); rhs = dur(*an) - dur(*rn["intersect"])
-        if abs(lhs - rhs) > 1000 * junctions:
-            ctx.fail("oracle", "|A - B| != |A| - |A n B|", inp, impl=[lhs, rhs])
+        check_pair(ctx, inp, a, b, same=(A is B), emptyB=(not B[0]))
+
+
+def check_pair(ctx, inp, a, b, same=False, emptyB=False):
+    an, bn = iset_ns(a), iset_ns(b)
+    ends = an[0] + an[1] + bn[0] + bn[1]
+    res = {"union": a.union(b), "intersect": a.intersect(b), "set_diff": a.set_diff(b)}
+    rn = {k_: iset_ns(v) for k_, v in res.items()}
+    probes = set()
+    for p in ends:
+        probes.update([p - 1001, p + 1001])
+    for p, q in zip(sorted(set(ends)), sorted(set(ends))[1:]):
+        probes.add((p + q) // 2)
+    probes = [x for x in probes if all(abs(x - p) > 1000 for p in ends)]
+    mem = lambda x, S: any(s <= x <= e for s, e in zip(*S))
+    for op, R in rn.items():
+        for x in probes:
+            ia, ib = mem(x, an), mem(x, bn)
+            want = (ia or ib) if op == "union" else (ia and ib) if op == "intersect" else (ia and not ib)
+            if mem(x, R) != want:
+                ctx.fail("oracle", "%s wrong at x=%d ns" % (op, x), inp, impl=R); break
+        if not is_canonical_ns(*R):
+            ctx.fail("oracle", "%s result not canonical" % op, inp, impl=R)
+        if not all(v in ends or (v + 1000) in ends for v in R[0] + R[1]):
+            ctx.fail("oracle", "%s endpoint is not an operand endpoint (or one reduced by 1us)" % op, inp, impl=R)
+    if iset_ns(b.union(a)) != rn["union"]:
+        ctx.fail("oracle", "union not commutative", inp, impl=[rn["union"], iset_ns(b.union(a))])
+    if iset_ns(b.intersect(a)) != rn["intersect"]:
+        ctx.fail("oracle", "intersect not commutative", inp, impl=[rn["intersect"], iset_ns(b.intersect(a))])
+    if same:
+        if rn["union"] != an or rn["intersect"] != an or rn["set_diff"] != ([], []):
+            ctx.fail("oracle", "A op A identities", inp, impl=rn)
+    if emptyB:
+        if rn["union"] != an or rn["intersect"] != ([], []) or rn["set_diff"] != an:
+            ctx.fail("oracle", "A op empty identities", inp, impl=rn)
+    junctions = len(ends) + 1
+    lhs = dur(*rn["union"]) + dur(*rn["intersect"]); rhs = dur(*an) + dur(*bn)
+    if abs(lhs - rhs) > 1000 * junctions:
+        ctx.fail("oracle", "|A u B| + |A n B| != |A| + |B|", inp, impl=[lhs, rhs])
+    lhs = dur(*rn["set_diff"]); rhs = dur(*an) - dur(*rn["intersect"])
+    if abs(lhs - rhs) > 1000 * junctions:
+        ctx.fail("oracle", "|A - B| != |A| - |A n B|", inp, impl=[lhs, rhs])
+
+
+
+
+def near_equal(ctx, n):
+    """operands that are almost the same set: B = A with endpoints moved by 0 .. 20 ms, at small and LARGE times
+    (a tolerance-based shortcut `A ~ B => A` would be wrong by more than the 1 us the property allows)"""
+    rng = ctx.rng
+    for k in range(n):
+        T = rng.choice([0, 3600, 90000]) * 10**9
+        m = rng.randint(1, 4)
+        pts, cur = [], T + rng.randint(0, 10**9)
+        for _ in range(m):
+            L = rng.choice([10**6, 5 * 10**7, 10**9, 7 * 10**9])
+            gap = rng.choice([10**6, 10**8, 3 * 10**9])
+            pts.append((cur, cur + L)); cur += L + gap
+        deltas = [0, 2000, -2000, 50000, -50000, 3 * 10**6, -3 * 10**6, 2 * 10**7, -2 * 10**7]
+        bs = []
+        for (s_, e_) in pts:
+            s2 = s_ + rng.choice(deltas); e2 = e_ + rng.choice(deltas)
+            bs.append((s2, e2))
+        if not all(x < y for x, y in bs) or not all(bs[i][1] < bs[i + 1][0] for i in range(len(bs) - 1)):
+            continue
+        A = ([p[0] for p in pts], [p[1] for p in pts]); B = ([p[0] for p in bs], [p[1] for p in bs])
+        inp = dict(level="api-near-equal", A=A, B=B, scale_ns=1)
+        ctx.case(("ne", tuple(A[0]), tuple(A[1]), tuple(B[0]), tuple(B[1])))
+        check_pair(ctx, inp, iset(A[0], A[1], 1), iset(B[0], B[1], 1), same=False, emptyB=False)
 
 
 def nary(ctx, n, sets):
@@ -177,6 +209,7 @@ def nary(ctx, n, sets):
 
 
 def run(ctx):
+    near_equal(ctx, 400 if ctx.quick else 5000)
     sets = gen.canonical_sets(7, 3)
     sh = lambda S, o: ([v + o for v in S[0]], [v + o for v in S[1]])
     # every second pair is translated to negative times (buffers are zero-initialised: sign matters)
